@@ -174,11 +174,14 @@ def _listed_findings(pid):
     return {e["id"]: e for e in data.get("findings", []) if e.get("property") == pid}
 
 
-def probe_case(ob, params, depth):
-    """Enumerate the feasible decision prefixes of length `depth` (or shorter complete paths) of one case."""
+def probe_case(ob, params, depth, prefix=None):
+    """Enumerate the feasible decision prefixes of length `depth` (or shorter complete paths) of one case,
+    below `prefix` if given."""
     ctx = symx.Ctx(timeout_ms=ob.timeout_ms)
     ctx.presets = params.get("_presets")
     ctx.cut_depth = depth
+    if prefix:
+        ctx.prefix = [[bool(d), False] for d in prefix]
     fn_params = {k: v for k, v in params.items() if not k.startswith("_")}
     symx.set_ctx(ctx)
     extras = ob.extras() if ob.extras else ()
@@ -190,13 +193,13 @@ def probe_case(ob, params, depth):
             ctx.begin()
             try:
                 ob.fn(**fn_params)
-                prefixes.append([d for d, _ in ctx.prefix])
+                prefixes.append([e[0] for e in ctx.prefix])
             except symx.Cut:
-                prefixes.append([d for d, _ in ctx.prefix])
+                prefixes.append([e[0] for e in ctx.prefix])
             except symx.Infeasible:
                 pass
             except Exception:
-                prefixes.append([d for d, _ in ctx.prefix])  # let the real exploration report it
+                prefixes.append([e[0] for e in ctx.prefix])  # let the real exploration report it
             ctx.end()
             if not ctx.backtrack():
                 break
@@ -207,8 +210,9 @@ def probe_case(ob, params, depth):
     return prefixes
 
 
-def explore_case(ob, params, pid, tier):
-    """Exhaustively explore one case of one obligation. Returns a stats dict."""
+def explore_case(ob, params, pid, tier, budget=0):
+    """Exhaustively explore one case of one obligation (or, with a budget, a part of it: the rest is returned
+    as `pending` decision prefixes). Returns a stats dict."""
     st = {
         "obligation": ob.name,
         "params": _jsonable(params),
@@ -276,6 +280,11 @@ def explore_case(ob, params, pid, tier):
             if st["paths"] >= ob.max_paths:
                 st["truncated"] = True
                 st["error"] = f"path budget {ob.max_paths} exhausted"
+                break
+            if budget and time.time() - t0 >= budget:
+                # hand the unexplored part of this subtree back to the driver (dynamic load balancing)
+                dec = [e[0] for e in ctx.prefix]
+                st["pending"] = [dec[:i] + [not dec[i]] for i, e in enumerate(ctx.prefix) if e[1]]
                 break
             if not ctx.backtrack():
                 break
@@ -574,15 +583,16 @@ def _jsonable(x):
 # parallel driver
 
 _OBS = []
+_BUDGET = 0
 
 
 def _probe(item):
-    oi, ci = item
+    oi, ci, depth, prefix = item
     ob = _OBS[oi]
     try:
-        return oi, ci, probe_case(ob, ob.cases[ci], ob.split_depth)
+        return oi, ci, probe_case(ob, ob.cases[ci], depth, prefix)
     except BaseException:
-        return oi, ci, [[]]
+        return oi, ci, [prefix or []]
 
 
 def _work(item):
@@ -592,7 +602,7 @@ def _work(item):
     if len(item) > 4 and item[4] is not None:
         case = dict(case, _prefix=item[4])
     try:
-        return oi, ci, explore_case(ob, case, pid, tier)
+        return oi, ci, explore_case(ob, case, pid, tier, budget=_BUDGET)
     except BaseException:
         return oi, ci, {"obligation": ob.name, "params": _jsonable(ob.cases[ci]), "error": traceback.format_exc(),
                         "paths": 0, "violations": [], "nonrepro": [], "known_hits": {}, "witness_mismatch": []}
@@ -605,17 +615,31 @@ def run_property(pid, tier, obligations, meta, jobs=None, seed=0):
     _OBS = obligations
     items = [(oi, ci, pid, tier, None) for oi, ob in enumerate(obligations) for ci in range(len(ob.cases))
              if not ob.split_depth]
-    to_probe = [(oi, ci) for oi, ob in enumerate(obligations) for ci in range(len(ob.cases)) if ob.split_depth]
     njobs = jobs or int(os.environ.get("VERIF_JOBS", "0")) or min(16, os.cpu_count() or 4)
-    if to_probe:
-        if njobs == 1:
-            probed = [_probe(it) for it in to_probe]
+    # decision-prefix splitting, in levels so that the probing itself is spread over the pool
+    frontier = [(oi, ci, None) for oi, ob in enumerate(obligations) for ci in range(len(ob.cases)) if ob.split_depth]
+    for level in (0, 1, 2):
+        todo, done = [], []
+        for oi, ci, pre in frontier:
+            full = obligations[oi].split_depth
+            depth = [max(1, full // 3), max(1, 2 * full // 3), full][level] if full >= 9 else full
+            if pre is not None and len(pre) < (0 if level == 0 else [max(1, full // 3), max(1, 2 * full // 3), full][level - 1] if full >= 9 else full):
+                done.append((oi, ci, pre))  # a complete path shorter than the previous cut: nothing below it
+            elif full < 9 and level > 0:
+                done.append((oi, ci, pre))
+            else:
+                todo.append((oi, ci, depth, pre))
+        if todo:
+            if njobs == 1:
+                probed = [_probe(it) for it in todo]
+            else:
+                with mp.get_context("fork").Pool(min(njobs, len(todo))) as pool:
+                    probed = list(pool.imap_unordered(_probe, todo, chunksize=1))
+            frontier = done + [(oi, ci, pre) for oi, ci, prefixes in probed for pre in prefixes]
         else:
-            with mp.get_context("fork").Pool(min(njobs, len(to_probe))) as pool:
-                probed = list(pool.imap_unordered(_probe, to_probe, chunksize=1))
-        for oi, ci, prefixes in probed:
-            for pre in prefixes:
-                items.append((oi, ci, pid, tier, pre))
+            frontier = done
+    for oi, ci, pre in frontier:
+        items.append((oi, ci, pid, tier, pre))
     def _cost(it):  # biggest cases first, so that the pool does not end on a long straggler
         c = obligations[it[0]].cases[it[1]]
         return -sum(v for k, v in c.items() if k in ("n", "m", "k", "N", "F", "R") and isinstance(v, int)) + (
@@ -623,15 +647,38 @@ def run_property(pid, tier, obligations, meta, jobs=None, seed=0):
 
     items.sort(key=_cost)
     jobs = jobs or int(os.environ.get("VERIF_JOBS", "0")) or min(16, os.cpu_count() or 4)
+    global _BUDGET
+    _BUDGET = float(os.environ.get("VERIF_BUDGET_S", "5"))  # seconds per work item before the rest is re-queued
     results = []
-    if jobs == 1 or len(items) == 1:
-        for it in items:
-            results.append(_work(it))
+    from collections import deque
+    queue = deque(items)
+    if jobs == 1:
+        while queue:
+            it = queue.popleft()
+            r = _work(it)
+            results.append(r)
+            for pre in r[2].pop("pending", []):
+                queue.append((it[0], it[1], it[2], it[3], pre))
     else:
         ctx = mp.get_context("fork")
-        with ctx.Pool(min(jobs, len(items)), maxtasksperchild=8) as pool:
-            for r in pool.imap_unordered(_work, items, chunksize=1):
-                results.append(r)
+        with ctx.Pool(jobs, maxtasksperchild=256) as pool:
+            running = []
+            while queue or running:
+                while queue and len(running) < jobs * 3:
+                    it = queue.popleft()
+                    running.append((it, pool.apply_async(_work, (it,))))
+                still = []
+                for it, ar in running:
+                    if ar.ready():
+                        r = ar.get()
+                        results.append(r)
+                        for pre in r[2].pop("pending", []):
+                            queue.appendleft((it[0], it[1], it[2], it[3], pre))
+                    else:
+                        still.append((it, ar))
+                running = still
+                if running and not (queue and len(running) < jobs * 3):
+                    time.sleep(0.01)
     results.sort(key=lambda r: (r[0], r[1]))
     return _report(pid, tier, obligations, results, meta, time.time() - t0, seed)
 
